@@ -13,7 +13,7 @@ LEVEL_TEXT = (
     "length-1/2, with/without metadata, EMPTY datasets), and collections member by member (own and copied member configs, empty members); arrays compared with np.array_equal."
 )
 LEVEL_NOTE = ("Trusted: pyvc encoding; muutils/zanj internals (json_serialize / load_item_recursive are the identity on in-memory arrays; MazeDatasetConfig.load(serialize(cfg)) is cfg); the dataclass-generated "
-              "SolvedMaze.__init__ (assumed contract, validated by the bounded stand-ins); np.cumsum / np.split library contracts; lemmas psum_monotone and psum_congruence (simple inductions). "
+              "initialiser of SolvedMaze's base class (SolvedMaze.__init__ and MazeDataset.__init__ themselves are verified against their bodies); torch Dataset.__init__ has no effect; np.cumsum / np.split library contracts; lemmas psum_monotone and psum_congruence (simple inductions). "
               "Configuration equality is judged on the configuration the dataset has after serialize() returned (minimal formats collect metadata in place: documented side effect).")
 TECHNIQUE = "contract-based deductive verification of both minimal codecs, their round-trip lemmas, format selection and dispatch (loop invariants, library contracts, z3) + bounded run-time checking for the full format, files, metadata, configs and collections"
 CONTRACT_MODULES = ["contracts.serialization"]
@@ -21,8 +21,8 @@ MD = "maze_dataset/dataset/maze_dataset.py"
 L = "/verif/contracts/lemmas_src.py"
 PROVE = [(MD, "MazeDataset._serialize_minimal"), (MD, "MazeDataset._load_minimal"), (L, "minimal_roundtrip"),
          (MD, "MazeDataset._serialize_minimal_soln_cat"), (MD, "MazeDataset._load_minimal_soln_cat"), (L, "soln_cat_roundtrip"),
-         (MD, "MazeDataset.serialize"), (MD, "MazeDataset.load")]
-ASSUMPTIONS = ["assumed contracts (dataclass/torch/muutils machinery, not verified against a body): SolvedMaze.__init__, MazeDataset.__init__, MazeDataset._serialize_full; the branch of the minimal "
+         (MD, "MazeDataset.serialize"), (MD, "MazeDataset.load"), (MD, "MazeDataset.__init__"), ("maze_dataset/maze/lattice_maze.py", "SolvedMaze.__init__")]
+ASSUMPTIONS = ["assumed contract (muutils reflection, not verified against a body): MazeDataset._serialize_full; the branch of the minimal "
                "serializers that first collects generation metadata through the filter machinery is outside the verified subset (precondition: metadata already collected or absent)"]
 EXPLANATION = "see DESIGN.md C05"
 
